@@ -1012,25 +1012,86 @@ func totalComparator(m *mapClassifier, call *ast.CallExpr) bool {
 	}
 	if want, listed := c08Comparators[declName(m.pk, m.fn)]; listed {
 		// a listed comparator must still compare every listed field of both elements
-		seen := map[string]int{}
-		var count func(body ast.Node, depth int)
-		count = func(body ast.Node, depth int) {
-			ast.Inspect(body, func(n ast.Node) bool {
-				if se, ok := n.(*ast.SelectorExpr); ok {
-					seen[se.Sel.Name]++
+		// each listed field must be compared BETWEEN the two elements: some relational expression (or a one-argument
+		// method call such as Before/Equal) selects the field from the first element on one side and from the second
+		// on the other. The two elements are the literal's parameters, or the parameters of a named function of the
+		// package the literal hands the two elements to.
+		info := m.pk.TypesInfo
+		paramObjs := func(ft *ast.FuncType) []types.Object {
+			var out []types.Object
+			for _, fld := range ft.Params.List {
+				for _, nm := range fld.Names {
+					out = append(out, info.Defs[nm])
 				}
-				// the comparison written as a named function of the package, called with the two elements
-				if c2, ok := n.(*ast.CallExpr); ok && depth == 0 {
-					if fd := m.localFuncDecl(c2); fd != nil {
-						count(fd.Body, depth+1)
+			}
+			return out
+		}
+		mentions := func(n ast.Node, o types.Object) bool {
+			found := false
+			ast.Inspect(n, func(x ast.Node) bool {
+				if id, ok := x.(*ast.Ident); ok && info.Uses[id] == o {
+					found = true
+				}
+				return !found
+			})
+			return found
+		}
+		selects := func(n ast.Node, field string, o types.Object) bool {
+			found := false
+			ast.Inspect(n, func(x ast.Node) bool {
+				if se, ok := x.(*ast.SelectorExpr); ok && se.Sel.Name == field && mentions(se.X, o) {
+					found = true
+				}
+				return !found
+			})
+			return found
+		}
+		comparedIn := func(body ast.Node, a, b types.Object, field string) bool {
+			ok := false
+			ast.Inspect(body, func(x ast.Node) bool {
+				var l, r ast.Node
+				switch e := x.(type) {
+				case *ast.BinaryExpr:
+					switch e.Op {
+					case token.LSS, token.GTR, token.LEQ, token.GEQ, token.EQL, token.NEQ:
+						l, r = e.X, e.Y
+					}
+				case *ast.CallExpr:
+					if se, isSel := e.Fun.(*ast.SelectorExpr); isSel && len(e.Args) == 1 {
+						l, r = se.X, e.Args[0]
+					} else if len(e.Args) == 2 {
+						l, r = e.Args[0], e.Args[1]
 					}
 				}
-				return true
+				if l != nil && r != nil {
+					if (selects(l, field, a) && selects(r, field, b)) || (selects(l, field, b) && selects(r, field, a)) {
+						ok = true
+					}
+				}
+				return !ok
 			})
+			return ok
 		}
-		count(fl.Body, 0)
+		ps := paramObjs(fl.Type)
+		if len(ps) != 2 || ps[0] == nil || ps[1] == nil {
+			return false
+		}
+		body, a, b := ast.Node(fl.Body), ps[0], ps[1]
+		// handed on to a named function?
+		var handed *ast.FuncDecl
+		ast.Inspect(fl.Body, func(n ast.Node) bool {
+			if c2, ok := n.(*ast.CallExpr); ok && handed == nil && len(c2.Args) == 2 && mentions(c2.Args[0], ps[0]) && mentions(c2.Args[1], ps[1]) {
+				if fd := m.localFuncDecl(c2); fd != nil {
+					if hp := paramObjs(fd.Type); len(hp) == 2 && hp[0] != nil && hp[1] != nil {
+						handed = fd
+						body, a, b = fd.Body, hp[0], hp[1]
+					}
+				}
+			}
+			return true
+		})
 		for _, f := range want {
-			if seen[f] < 2 {
+			if !comparedIn(body, a, b, f) {
 				return false
 			}
 		}
